@@ -525,7 +525,7 @@ def _work(chunk):
             os.close(rfd)
             try:
                 import signal
-                signal.alarm(60)
+                signal.alarm(common.patience(60))
                 res = ('ok', run_history(h))
             except BaseException:
                 res = ('crash', traceback.format_exc()[-1500:])
